@@ -372,6 +372,13 @@ def check(ctx, build=None):
                         "recursive-method-and-called-elsewhere:caller-first": [("useSum", "RL__sum")], "recursive-method-and-called-elsewhere:caller-last": [("useSum", "RL__sum")]}
         probes["interface-parameter-followed-by-another"] = ("type Sh2 interface {\n\tarea() uint64\n}\n\ntype Sq2 struct {\n\tside uint64\n}\n\nfunc (s Sq2) area() uint64 {\n\treturn s.side\n}\n\n"
                                                              "func takes2(i Sh2, k uint64) uint64 {\n\treturn i.area() + k\n}\n\nfunc use2(s Sq2) uint64 {\n\tx := takes2(s, 3)\n\treturn x\n}\n")
+        probes["variable-group-forward-reference"] = ("var (\n\tLimitV uint64 = BaseV + 1\n\tBaseV  uint64 = 1\n)\n\nfunc useV() uint64 {\n\treturn LimitV\n}\n")
+        probes["variable-groups-crosswise"] = ("var (\n\tAv uint64 = Xv + 1\n\tBv uint64 = 1\n)\n\nvar (\n\tXv uint64 = 3\n\tYv uint64 = Bv\n)\n\nfunc useXY() uint64 {\n\treturn Av + Yv\n}\n")
+        probes["constant-groups-crosswise"] = ("const (\n\tAc uint64 = Xc + 1\n\tBc uint64 = 1\n)\n\nconst (\n\tXc uint64 = 3\n\tYc uint64 = Bc\n)\n\nfunc useXYc() uint64 {\n\treturn Ac + Yc\n}\n")
+        probes["pointer-method-on-alias-receiver"] = ("type SB struct {\n\tv uint64\n}\n\ntype AB = SB\n\nfunc (x *AB) bump() {\n\tx.v = x.v + 1\n}\n\nfunc (x AB) get() uint64 {\n\treturn x.v\n}\n\n"
+                                                      "func callB() uint64 {\n\tp := &SB{v: 1}\n\tp.bump()\n\treturn p.get()\n}\n")
+        probes["interface-conversion-for-method-call"] = ("type Sh3 interface {\n\tarea() uint64\n}\n\ntype HH struct {\n\tk uint64\n}\n\nfunc (h HH) takes(i Sh3) uint64 {\n\treturn i.area() + h.k\n}\n\n"
+                                                          "func useHH(h HH, s Sq3) uint64 {\n\tx := h.takes(s)\n\treturn x\n}\n\ntype Sq3 struct {\n\tside uint64\n}\n\nfunc (s Sq3) area() uint64 {\n\treturn s.side\n}\n")
         for pid, psrc in sorted(probes.items()):
             root = os.path.join(scratch, "probe")
             gomod.write_module(root, {"p": {"p.go": "package p\n\n" + psrc}})
